@@ -299,7 +299,7 @@ class Interp:
             if mm:
                 c = self.place_cell(fr, mm.group(1))
                 ev = c.v
-                if isinstance(ev, Coroutine):
+                if isinstance(ev, Coroutine) or (hasattr(ev, "variant_cell") and not isinstance(ev, EnumV)):
                     return ev.variant_cell(mm.group(2), int(fld))
                 if not isinstance(ev, EnumV):
                     raise Unsupported("downcast of non-enum %s: %r" % (s, ev))
@@ -528,6 +528,18 @@ class Interp:
         ev = self.enum_variant(rhs)
         if ev is not None:
             return EnumV(ev[1])
+        # coroutine aggregate (an `async fn` call): {coroutine@file:span (#0)} { upvar: op, ... }
+        m = re.match(r"^\{coroutine@([^}]*)\} \{ (.*) \}$", rhs) or re.match(r"^\{coroutine@([^}]*)\}$", rhs)
+        if m:
+            co = Coroutine({})
+            co.span = m.group(1).split(" (#")[0]
+            if m.lastindex and m.lastindex >= 2:
+                for i, part in enumerate(self.split_top(m.group(2))):
+                    co.up[i] = Cell(self.operand(fr, part.split(": ", 1)[1], path))
+            return co
+        m = re.match(r"^\{closure@([^}]*)\}$", rhs)
+        if m:
+            return Closure(m.group(1), {})
         # closure aggregate: {closure@file:span} { capture: op, ... }
         m = re.match(r"^\{closure@([^}]*)\} \{ (.*) \}$", rhs)
         if m:
@@ -549,6 +561,11 @@ class Interp:
             return Struct({i: Cell(self.operand(fr, p, path)) for i, p in enumerate(parts)})
         if re.match(r"^[A-Z]\w*$", rhs) or re.match(r"^[\w:]+::[A-Z]\w*$", rhs):
             return ("variant", rhs)        # unit variant of an enum the property does not inspect
+        # tuple-struct / tuple-variant constructor as an aggregate: Name::<T, U>(op, op)   (calls are terminators, not rvalues)
+        m = re.match(r"^([A-Za-z_][\w:]*)(?:::<.*>)?\((.*)\)$", rhs)
+        if m and not rhs.startswith(("copy ", "move ", "const ")):
+            parts = self.split_top(m.group(2)) if m.group(2).strip() else []
+            return Struct({i: Cell(self.operand(fr, part, path)) for i, part in enumerate(parts)})
         raise Unsupported("rvalue? " + rhs)
 
     def operand_type(self, fr, s):
@@ -640,13 +657,26 @@ class Interp:
             else:
                 c.v = EnumV(int(m.group(2)))
             return
-        lhs, rhs = st.split(" = ", 1)
+        lhs, rhs = self.split_assign(st)
         lty = None
         mm = re.match(r"^(_\d+)$", lhs.strip())
         if mm:
             lty = fr["__types__"].get(mm.group(1))
         v = self.rvalue(fr, rhs, path, lty)
         self.place_cell(fr, lhs).v = v
+
+    @staticmethod
+    def split_assign(st):
+        """`place = rvalue`: the first " = " outside brackets (types may contain `Output = T`)"""
+        depth = 0
+        for i, ch in enumerate(st):
+            if ch in "(<[{":
+                depth += 1
+            elif ch in ")]}" or (ch == ">" and st[i - 1] != "-"):
+                depth -= 1
+            elif ch == " " and depth == 0 and st[i:i + 3] == " = ":
+                return st[:i], st[i + 3:]
+        return st.split(" = ", 1)
 
     def term(self, fr, t, path, depth, fn):
         t = t.rstrip(";")
@@ -716,6 +746,7 @@ class Interp:
             dest, calltxt, ret = m.groups()
             callee, argtxt = self.split_call(calltxt)
             args = [self.operand(fr, a, path) for a in self.split_top(argtxt)] if argtxt.strip() else []
+            fr["__dest_ty__"] = fr["__types__"].get(dest.strip()) if fr.get("__types__") else None
             try:
                 v = yield from self.call(callee.strip(), args, path, depth, fr)
             except MirUnwind:
@@ -749,6 +780,7 @@ class Interp:
         raise Unsupported("terminator? " + t)
 
     drop_hook = None
+    fallback = None      # optional: called for callees without summary or body (uninterpreted-function treatment)
     rem_hook = None      # optional abstraction of unsigned Rem (see c09_timers.check_interval_tick)
 
     def closure_fn(self, clo):
@@ -880,6 +912,11 @@ class Interp:
             return (yield from b)
         fn = self.resolve(callee)
         if fn is None:
+            if self.fallback is not None:
+                r = self.fallback(self, callee, args, path, fr)
+                if hasattr(r, "__next__"):
+                    r = yield from r
+                return r
             raise Unsupported("no summary/body for " + callee)
         return (yield from self.call_fn(fn, args, path, depth + 1, self.generic_consts(fn, callee)))
 
